@@ -329,20 +329,20 @@ func (o *optimizer) etaReduction() {
 	// eta reduction evaluates $fun when the closure is created instead of
 	// every time it is called, and drops the call itself, so it is only sound
 	// when $fun is a stable function value and the call is an ordinary one:
-	//	- declared (package level) func, explicitly instantiated if generic
+	//	- declared (package level) func, explicitly and fully instantiated if generic
 	//	- MoveNext method value of the generated iterator variable (assigned once)
 	// NOT func variables / method values (may be reassigned before calling),
 	// builtins, conversions (no func value at all), f(xs...) (variadic spread)
-	var stableCallee func(ctx astmatcher.Ctx, fun ast.Expr, instantiated bool) bool
-	stableCallee = func(ctx astmatcher.Ctx, fun ast.Expr, instantiated bool) bool {
+	var stableCallee func(ctx astmatcher.Ctx, fun ast.Expr, typeArgs int) bool
+	stableCallee = func(ctx astmatcher.Ctx, fun ast.Expr, typeArgs int) bool {
 		var id *ast.Ident
 		switch f := fun.(type) {
 		case *ast.ParenExpr:
-			return stableCallee(ctx, f.X, instantiated)
+			return stableCallee(ctx, f.X, typeArgs)
 		case *ast.IndexExpr:
-			return stableCallee(ctx, f.X, true)
+			return stableCallee(ctx, f.X, typeArgs+1)
 		case *ast.IndexListExpr:
-			return stableCallee(ctx, f.X, true)
+			return stableCallee(ctx, f.X, typeArgs+len(f.Indices))
 		case *ast.Ident:
 			id = f
 		case *ast.SelectorExpr:
@@ -351,7 +351,7 @@ func (o *optimizer) etaReduction() {
 				return false
 			}
 			if strings.HasPrefix(x.Name, cstIterVar) && f.Sel.Name == cstMoveNext {
-				return !instantiated
+				return typeArgs == 0
 			}
 			if _, isPkg := ctx.ObjectOf(x).(*types.PkgName); !isPkg {
 				return false // method value
@@ -368,7 +368,8 @@ func (o *optimizer) etaReduction() {
 		if sig == nil || sig.Recv() != nil {
 			return false
 		}
-		return sig.TypeParams().Len() == 0 || instantiated
+		// fully instantiated: the remaining type args of conv[int](x) are inferred from the args of the call only
+		return sig.TypeParams().Len() == typeArgs
 	}
 
 	ordinaryCall := func(lit ast.Node) bool {
@@ -400,7 +401,7 @@ func (o *optimizer) etaReduction() {
 			fun := ctx.Binds["fun"].(ast.Expr)
 			if matched(ctx, params, args) &&
 				ordinaryCall(c.Node()) &&
-				stableCallee(ctx, fun, false) &&
+				stableCallee(ctx, fun, 0) &&
 				sameType(ctx, c.Node(), fun) {
 				c.Replace(fun)
 			}
